@@ -200,3 +200,172 @@ def unbounded(pattern: str, flags: int) -> bool:
         return False
 
     return walk(tree)
+
+
+def _pattern_chars(tree: t.Any) -> set[str]:
+    out: set[str] = set()
+
+    def walk(items: t.Any) -> None:
+        for op, av in items:
+            if op in (sc.LITERAL, sc.NOT_LITERAL):
+                out.add(chr(av))
+            elif op is sc.IN:
+                for o2, a2 in av:
+                    if o2 is sc.LITERAL:
+                        out.add(chr(a2))
+                    elif o2 is sc.RANGE:
+                        out.update({chr(a2[0]), chr(a2[1])})
+            elif op is sc.SUBPATTERN:
+                walk(av[3])
+            elif op is sc.BRANCH:
+                for alt in av[1]:
+                    walk(alt)
+            elif op in (sc.MAX_REPEAT, sc.MIN_REPEAT, sc.POSSESSIVE_REPEAT):
+                walk(av[2])
+            elif op in (sc.ASSERT, sc.ASSERT_NOT):
+                walk(av[1])
+
+    walk(tree)
+    return out
+
+
+def eda_witness(pattern: str, flags: int = 0) -> tuple[str, str] | None:
+    """Exponential ambiguity of the pattern's NFA (a backtracking matcher then needs time
+    exponential in the input length to report a failure): there are a state q and a word w
+    with two *different* runs q -w-> q.  Decided on the epsilon-free NFA over an alphabet of
+    representative characters (the pattern's own literals / range ends plus fillers) as
+    "some strongly connected component of the product automaton contains a pair (p, p) and
+    a pair (p, r) with p != r".  Returns (prefix reaching q, w) or None.  Look-around
+    assertions and anchors are dropped, possessive / atomic constructs are treated as greedy
+    (both make the answer conservative: a reported pattern may in fact be safe)."""
+    tree = sp.parse(pattern, flags)
+    fl = tree.state.flags
+    nfa = NFA()
+    s0 = nfa.new()
+    build(nfa, tree, s0)
+    alphabet = sorted(_pattern_chars(tree) | {"a", "Z", "0", " ", "\n", "_", "é", "#"})
+
+    clos: dict[int, frozenset[int]] = {}
+
+    def closure(x: int) -> frozenset[int]:
+        if x not in clos:
+            out = {x}
+            todo = [x]
+            while todo:
+                y = todo.pop()
+                for z in nfa.eps.get(y, ()):
+                    if z not in out:
+                        out.add(z)
+                        todo.append(z)
+            clos[x] = frozenset(out)
+        return clos[x]
+
+    def step(q: int, ch: str) -> set[int]:
+        out = set()
+        for x in closure(q):
+            for (op, av), y in nfa.trans.get(x, ()):
+                if matches_item(op, av, ch, fl):
+                    out.add(y)
+        return out
+
+    # reachable "character" states (targets of a consuming transition) and a word reaching each
+    reach: dict[int, str] = {s0: ""}
+    todo = [s0]
+    while todo:
+        q = todo.pop(0)
+        for ch in alphabet:
+            for r in step(q, ch):
+                if r not in reach:
+                    reach[r] = reach[q] + ch
+                    todo.append(r)
+    # product graph restricted to pairs reachable from a diagonal pair
+    succ: dict[tuple[int, int], set[tuple[int, int]]] = {}
+    label: dict[tuple[tuple[int, int], tuple[int, int]], str] = {}
+    todo2 = [(q, q) for q in reach]
+    seen = set(todo2)
+    while todo2:
+        pr = todo2.pop()
+        a, b = pr
+        for ch in alphabet:
+            sa_, sb_ = step(a, ch), step(b, ch)
+            for x in sa_:
+                for y in sb_:
+                    nx = (x, y)
+                    succ.setdefault(pr, set()).add(nx)
+                    label.setdefault((pr, nx), ch)
+                    if nx not in seen:
+                        seen.add(nx)
+                        todo2.append(nx)
+    # Tarjan (iterative)
+    index: dict[tuple[int, int], int] = {}
+    low: dict[tuple[int, int], int] = {}
+    onst: set[tuple[int, int]] = set()
+    stack: list[tuple[int, int]] = []
+    comp: list[list[tuple[int, int]]] = []
+    counter = 0
+    for root in list(seen):
+        if root in index:
+            continue
+        work = [(root, iter(succ.get(root, ())))]
+        index[root] = low[root] = counter
+        counter += 1
+        stack.append(root)
+        onst.add(root)
+        while work:
+            v, it = work[-1]
+            adv = False
+            for w in it:
+                if w not in index:
+                    index[w] = low[w] = counter
+                    counter += 1
+                    stack.append(w)
+                    onst.add(w)
+                    work.append((w, iter(succ.get(w, ()))))
+                    adv = True
+                    break
+                if w in onst:
+                    low[v] = min(low[v], index[w])
+            if adv:
+                continue
+            work.pop()
+            if work:
+                low[work[-1][0]] = min(low[work[-1][0]], low[v])
+            if low[v] == index[v]:
+                c = []
+                while True:
+                    w = stack.pop()
+                    onst.discard(w)
+                    c.append(w)
+                    if w == v:
+                        break
+                comp.append(c)
+    for c in comp:
+        cs = set(c)
+        diag = [p for p in c if p[0] == p[1]]
+        off = [p for p in c if p[0] != p[1]]
+        if diag and off and (len(c) > 1 or c[0] in succ.get(c[0], ())):
+            # a cycle diag -> off -> diag inside the component gives the pumped word
+            def path(src: tuple[int, int], dst: tuple[int, int]) -> str:
+                prev: dict[tuple[int, int], tuple[tuple[int, int], str]] = {}
+                q_ = [src]
+                seen_ = {src}
+                while q_:
+                    u = q_.pop(0)
+                    for v_ in succ.get(u, ()):
+                        if v_ in cs and v_ not in seen_:
+                            seen_.add(v_)
+                            prev[v_] = (u, label[(u, v_)])
+                            if v_ == dst:
+                                w_ = ""
+                                while v_ != src:
+                                    u2, ch2 = prev[v_]
+                                    w_ = ch2 + w_
+                                    v_ = u2
+                                return w_
+                            q_.append(v_)
+                return ""
+
+            d0 = diag[0]
+            w = path(d0, off[0]) + path(off[0], d0)
+            return reach.get(d0[0], ""), w
+    return None
